@@ -276,7 +276,7 @@ func (m *monC18) OnTransition(t *Transition) []Violation {
 		return nil
 	}
 	var vs []Violation
-	want, why := Accepts(t.Pre, t.Op, t.W.K.GetAuthority())
+	want, why := Accepts(t.Pre, t.Op, GovAddr())
 	got := t.Res.OK()
 	tag := t.Op.Tag
 	if tag == "" {
